@@ -118,6 +118,18 @@ def popMtuProbe (s : Segments) (seqNr : Nat) : Option (Segments × Bool) :=
                      lenBytes := s.lenBytes - last.payloadSize }, true)
     else some (s, false)
 
+/-- number of segments at the back of the queue that were never transmitted -/
+def trailingUnsent : List Segment → Nat
+  | [] => 0
+  | g :: rest => if rest.all (fun x => x.sent = .notSent) ∧ g.sent = .notSent then rest.length + 1 else trailingUnsent rest
+
+/-- `discard_unsent()`: the never-transmitted segments at the back go back to the unsegmented part of the stream. -/
+def discardUnsent (s : Segments) : Segments :=
+  let t := trailingUnsent s.segs
+  let dropped := s.segs.drop (s.segs.length - t)
+  let bytes := (dropped.map (·.payloadSize)).sum
+  { s with segs := s.segs.take (s.segs.length - t), offset := s.offset - bytes, lenBytes := s.lenBytes - bytes }
+
 /-- `pop_expired_mtu_probe(retransmit_timed_out, max_probe_retransmissions)`. -/
 def popExpiredMtuProbe (s : Segments) (timedOut : Bool) (maxRetx : Nat) : Option (Segments × PopExpired) :=
   match s.segs.getLast? with
